@@ -465,20 +465,33 @@ pub(crate) fn cases(run: &mut Run, ctx: &mut Ctx, rng: &mut Rng, thorough: bool)
             run_case(run, ctx, &c);
         }
     }
-    // .tnd content that places no cell (header only / position command only): the recorded finding `picture-tnd-no-cell`
+    // .tnd content that places no cell (header only / position command only): the site of the repaired finding
+    // `picture-tnd-no-cell` - at the default height (same picture) and at other heights (the record's height is honoured)
     for content in [&b"\x18TUNDRA24"[..], &b"\x18TUNDRA24\x01\x00\x00\x00\x02\x00\x00\x00\x05"[..]] {
-        for nc in [0usize, 255] {
+        for (i, nc) in [0usize, 255, 0, 1, 0, 0].into_iter().enumerate() {
             let mut c = gen_case(rng, "tnd", false);
             c.mode = 'c';
             c.has = true;
             c.w = 80;
-            c.h = 25;
+            c.h = match i {
+                0 | 1 => 25,
+                2 => 0,
+                3 => 1,
+                4 => 1 + rng.below(200) as i32,
+                _ => *rng.pick(&[24, 26, 100, 1000]),
+            };
             c.ice = false;
             c.font = cp_bytes(&icy_engine::BitFont::default().name);
             c.vec = content.to_vec();
             c.comments = (0..nc).map(|_| gen_comment(rng)).collect();
             run.count("splice:tnd:no-cell-content");
             run_case(run, ctx, &c);
+            // the same file through the composed model (SauceLoad.fromBytes): the loader's height rule for a file without cells
+            let mut file = c.vec.clone();
+            if let Ok(Ok(_)) = catch(AssertUnwindSafe(|| c.buffer(false).write_sauce_info(KINDS[ext_kind("tnd")], &mut file))) {
+                run.count(&format!("binload:tnd:no-cell:height:{}", if c.h == 25 { "default".to_string() } else if c.h == 0 { "0".to_string() } else { "other".to_string() }));
+                load_raw(run, ctx, "tnd", &file);
+            }
         }
     }
     // meta ('m' of c11.rs: to_bytes / extract / from_bytes of every writer) with boundary counts, incl. icy
